@@ -117,7 +117,19 @@ func checkC16(r *Run) {
 			return
 		}
 		errCall, callee := c.asCall(k.Call.Args[1])
-		if errCall == nil || callee != c.Method("BaseClient", "Err") || !c.heldAt(upd, errCall, upd.Params[0], muF, "w") {
+		errOK := errCall != nil && callee == c.Method("BaseClient", "Err") && c.heldAt(upd, errCall, upd.Params[0], muF, "w")
+		if !errOK {
+			// Err() written out: the err field loaded under its own lock, inside the same critical section
+			if ld, isLd := c.Resolve(k.Call.Args[1]).(*ssa.UnOp); isLd {
+				if base, isErr := isFieldLoad(ld, "BaseClient", "err"); isErr && c.Resolve(base) == ssa.Value(upd.Params[0]) {
+					muErrF := c.structField("BaseClient", "muErr")
+					if muErrF != nil && c.heldAt(upd, ld, upd.Params[0], muF, "w") && c.heldAt(upd, ld, upd.Params[0], muErrF, "r") {
+						errOK = true
+					}
+				}
+			}
+		}
+		if !errOK {
 			r1.Bad(key, in.Pos(), "the callback's error is not Err() read in the same critical section as the state")
 			return
 		}
@@ -406,7 +418,15 @@ func checkC16(r *Run) {
 					okVal = true
 					for _, e := range phi.Edges {
 						call, callee := c.asCall(e)
-						if call == nil || (callee != serve && callee != closeM) {
+						if call == nil {
+							// the transport closed directly: c.Transport.Close()
+							if k2, isCall := c.Resolve(e).(*ssa.Call); isCall && c.closesTransport(k2, 0) {
+								continue
+							}
+							okVal = false
+							continue
+						}
+						if callee != serve && callee != closeM && !c.closesTransport(call, 0) {
 							okVal = false
 						}
 					}
